@@ -150,13 +150,23 @@ def run(pid, tier, seed, t0):
                 if k in (0, n // 2):
                     cov['samples'].append({'stage': st['name'], 'case': json.loads(line) if len(line) < 3000
                                            else line[:3000] + '...(truncated)'})
-                if ntf:
+                if st.get('tree'):
+                    # a tree episode packs thousands of transitions: count the distinct non-trivial operations
+                    c = json.loads(line)
+                    ntop = P.get('nontrivial_op') or (lambda op: op.get('op') not in ('new', 'restore'))
+                    for op in c.get('ops', []):
+                        if ntop(op):
+                            op = dict(op)
+                            op.pop('save', None)
+                            distinct.add(hashlib.sha1(json.dumps(op, sort_keys=True).encode()).digest())
+                elif ntf:
                     c = json.loads(line)
                     if ntf(c):
                         distinct.add(hashlib.sha1(json.dumps(c.get('ops'), sort_keys=True).encode()).digest())
         j = _judge_cases(pid, tag, st, cases)
         info.update({'episodes': n, 'events': j['events']})
-        cov['traces_validated_against_impl'] += n
+        # a tree-shaped episode validates one behaviour (path from the initial state) per replayed transition
+        cov['traces_validated_against_impl'] += info.get('edges_replayed', n)
         cov['events_judged'] += j['events']
         for k, v in j['counts'].items():
             cov['counters'][k] = cov['counters'].get(k, 0) + v
